@@ -653,6 +653,9 @@ class CInterp:
 
     e_ParenExpr = e_MaterializeTemporaryExpr = e_ExprWithCleanups = e_CXXBindTemporaryExpr = e_ConstantExpr = _pass
 
+    def e_StringLiteral(self, n, env):
+        return str(n.get("value", ""))
+
     def e_IntegerLiteral(self, n, env):
         return int(n["value"])
 
